@@ -100,7 +100,23 @@ def check_case(case):
     require(got == M.exact(model, '/'.join(active)), 'get_bindings-strict',
             lambda: f'active={active} got={got} model={M.exact(model, "/".join(active))}')
 
+    if case.get('finalize'):
+      gin.finalize()
+      labels.add('finalized')
     for call in case['calls']:
+      rb = call.get('rebind')
+      if rb is not None and model:
+        # a binding is changed (or added) between two calls; on a finalized config this goes
+        # through unlock_config. Later calls must see it wherever the scope overlay reaches it.
+        keys = sorted(model)
+        scope, param = keys[rb[0] % len(keys)]
+        if rb[2]:
+          scope = '/'.join(scope.split('/')[:-1]) if scope else scope     # a proper prefix
+        new_value = 'R%d' % rb[1]
+        with gin.unlock_config():
+          gin.bind_parameter((scope, sel_full, param), new_value)
+        model[(scope, param)] = new_value
+        labels.add('rebind-between-calls')
       extra_entry = call.get('enter')
       ctx = gin.config_scope(extra_entry) if extra_entry is not None else contextlib.nullcontext()
       with ctx:
@@ -108,8 +124,10 @@ def check_case(case):
           stack.enter(extra_entry)
         act = stack.current
         app = M.overlay(model, act)
-        args = list(call['args'])
-        kwargs = dict(call['kwargs'])
+        # caller values are passed as fresh mutable objects: "reaches the function unchanged"
+        # is checked by value and by identity
+        args = [[a] for a in call['args']]
+        kwargs = {k: [v] for k, v in call['kwargs'].items()}
         verdict, exp = M.expected_call(sig, args, kwargs, app)
         n_before = len(built.log)
         try:
@@ -131,6 +149,11 @@ def check_case(case):
                           f'\n got  {got_rec}\n model {exp}')
           require(rec['scope'] == '/'.join(act), 'scope-seen-by-body',
                   lambda: f"{rec['scope']!r} vs {act}")
+          seen = list(rec['named'].values()) + list(rec['args']) + list(rec['kw'].values())
+          for obj in args + list(kwargs.values()):
+            require(any(x is obj for x in seen), 'caller-value-not-the-same-object',
+                    lambda: f'the caller passed {obj!r}; the function received an equal copy, '
+                            f'not that object')
           labels.add('call:ok')
         if extra_entry is not None:
           stack.exit()
@@ -202,7 +225,7 @@ def strategy(draw):
                        draw(st.sampled_from(['full', 'short']))])
   positional = shape['pos'] + shape['dflt']
   calls = []
-  for j in range(draw(st.integers(1, 3))):
+  for j in range(draw(st.integers(1, 4))):
     max_pos = len(positional) + (2 if shape['varargs'] else (1 if draw(st.integers(0, 9)) == 0
                                                              else 0))
     n_pos = draw(st.integers(0, max_pos))
@@ -224,5 +247,8 @@ def strategy(draw):
     call = {'args': args, 'kwargs': {k: 'K%d.%s' % (j, k) for k in dict.fromkeys(kw_names)}}
     if draw(st.integers(0, 3)) == 0:
       call['enter'] = draw(_entry)
+    if j > 0 and draw(st.integers(0, 2)) == 0:
+      call['rebind'] = [draw(st.integers(0, 11)), j, draw(st.booleans())]
     calls.append(call)
-  return {'shape': shape, 'entries': entries, 'bindings': bindings, 'calls': calls}
+  return {'shape': shape, 'entries': entries, 'bindings': bindings, 'calls': calls,
+          'finalize': draw(st.integers(0, 2)) == 0}
